@@ -119,7 +119,10 @@ def run_pair(ctx, case, rng):
         if not p.start() or not p.auth():
             ctx.inconclusive("handshake failed")
             return
+        cm.diverge_ids(p, rng)
         c, s = p.session(window_size=case["window"], max_packet_size=case["packet"])
+        if c is not None and c.chanid != c.remote_chanid:
+            ctx.count("channels_with_local_id_ne_remote_id")
         w, r = (c, s) if d == "c2s" else (s, c)
         rside = "s" if d == "c2s" else "c"
         p.link.set_latency(case["latency"])
